@@ -426,6 +426,12 @@ func (p *Parser) parseMultiplicativeExpression() (ast.Expression, error) {
 		p.isType(models.TokenTypeDiv) || p.isType(models.TokenTypeMod) {
 		operator := p.currentToken.Literal
 		p.advance() // Consume operator
+		if p.currentPos >= len(p.tokens) {
+			// The operator was the last token of a slice without an end marker. The
+			// current token is not refreshed past the end, and '*' is also a valid
+			// operand, so the loop would read the same '*' again for ever.
+			return nil, p.expectedError("expression after " + operator)
+		}
 
 		right, err := p.parseJSONExpression()
 		if err != nil {
